@@ -214,6 +214,16 @@ ReusePosCases ==
         p \in {<<0, 0>>, <<20, -12>>, <<-16, 4>>}, wh \in {"specs", "defs", "inline-before", "inline-after"},
         an \in {"tl", "c", "br", "t"}, via \in {"abs", "loc"}}
     \cup
+    \* placed along ONE axis only (x without y, y without x): the other stays where the template is
+    {[fam |-> "rel", form |-> "reusepos", tkind |-> tk, w |-> sz[1], h |-> sz[2], x |-> p[1], y |-> p[2], where |-> wh,
+      anchor |-> "tl", via |-> via,
+      \* (a circle / ellipse template written without a centre sits around the origin)
+      exp |-> LET ox == IF tk \in {"circle", "ellipse"} THEN -Half(sz[1]) ELSE 0
+                  oy == IF tk \in {"circle", "ellipse"} THEN -Half(sz[2]) ELSE 0
+              IN IF via = "abs-x" THEN PlaceAt(<<p[1], oy>>, "tl", sz[1], sz[2]) ELSE PlaceAt(<<ox, p[2]>>, "tl", sz[1], sz[2])] :
+        tk \in {"rect", "circle", "ellipse", "g", "symbol"}, sz \in {<<8, 8>>, <<8, 12>>},
+        p \in {<<20, -12>>, <<-16, 4>>}, wh \in {"specs", "defs", "inline-before", "inline-after"}, via \in {"abs-x", "abs-y"}}
+    \cup
     {[fam |-> "rel", form |-> "reusepos", tkind |-> tk, w |-> sz[1], h |-> sz[2], x |-> p[1], y |-> p[2], where |-> wh,
       anchor |-> d, via |-> "dir", exp |-> PlaceDir(ReuseBase(p), d, 4, sz[1], sz[2])] :
         tk \in {"rect", "circle", "ellipse", "g", "symbol"}, sz \in {<<8, 8>>, <<8, 12>>},
